@@ -18,6 +18,7 @@ import (
 	"github.com/codenotary/immudb/embedded/store"
 
 	"verifharness/internal/fw"
+	"verifharness/internal/hook"
 	m "verifharness/internal/sqlmodel"
 	"verifharness/internal/sth"
 )
@@ -131,6 +132,17 @@ func engineCase(c *fw.Ctx, data []byte) {
 		}
 	}
 	base := d.st.LastCommittedTxID()
+	d.acked.Store(base)
+	if cs.DDL && cs.Sessions > 1 && cs.Idx%4 == 1 {
+		// widen the window between a DDL commit reaching the store and the engine's catalog
+		// cache learning about it (schedule perturbation only; no verdict depends on it)
+		h := hook.Install(&hook.Config{Seed: c.Seed + int64(cs.Idx), Perturb: 0.7, MaxSleep: 3 * time.Millisecond,
+			Sites: map[string]bool{"sql.commit.afterStoreCommit": true}})
+		defer func() {
+			hook.Uninstall()
+			c.Count("hook_sql_commit_afterStoreCommit", int64(h.Hits()["sql.commit.afterStoreCommit"]))
+		}()
+	}
 	obs := d.runSessions(progs)
 	if d.stuck.Load() {
 		c.Inconclusive(fmt.Sprintf("[%s] %v", tag, d.why.Load()))
